@@ -23,6 +23,26 @@ theorem C02_rolledBack_files (fs : FS) (ds : List Path) (p : Path) (b : String) 
     (h : fs.get p = some (.file b m)) : (rolledBack fs ds).get p = some (.file b m) :=
   mkdirs_file _ fs p b m h
 
+theorem C02_spec_buildGo_raises (w : World) (cf : Path) (name : String) (root : Prog)
+    (ff : List Path) (fsb : List H) (ab : Nat) (old : Rec) (e : Exc)
+    (h : (Spec.buildGo w cf name root ff fsb ab old).res = .error e) :
+    (Spec.buildGo w cf name root ff fsb ab old).world.recs = w.recs ∧
+    ∃ ds, (Spec.buildGo w cf name root ff fsb ab old).world.fs = rolledBack w.fs ds := by
+  unfold Spec.buildGo at h ⊢
+  simp only at h ⊢
+  split
+  · exact ⟨rfl, _, rfl⟩
+  · rename_i cds hcds
+    simp only [hcds] at h
+    generalize hrun : run root none _ = rr at h ⊢
+    obtain ⟨r0, s2, tr⟩ := rr
+    simp only at h ⊢
+    split
+    · exact ⟨rfl, _, rfl⟩
+    · rename_i v hv
+      simp only [hv] at h
+      cases h
+
 /-- C02 (reference): whenever `build` ends with an exception — raised by the root function, by anything
     it calls without catching, by a refused call, or by the (injected) failure of the cache write — the
     exception is the one that was raised and the world is the pre-build world, rolled back. -/
@@ -34,38 +54,18 @@ theorem C02_spec_build_raises (w : World) (cf : Path) (name : String) (root : Pr
       ∃ ds, (Spec.build w cf name root ff fsb ab).world.fs = rolledBack w.fs ds) := by
   unfold Spec.build at h ⊢
   cases hc : w.cacheState cf with
-  | isDir => simp [hc]
-  | corrupt => simp [hc]
+  | isDir => simp
+  | corrupt => simp
   | absent =>
     simp only [hc] at h ⊢
-    split
-    · exact ⟨rfl, Or.inr ⟨_, rfl⟩⟩
-    · rename_i cds hcds
-      simp only [hcds] at h
-      generalize hrun : run root none _ = rr at h ⊢
-      obtain ⟨r0, s2, tr⟩ := rr
-      simp only at h ⊢
-      split
-      · exact ⟨rfl, Or.inr ⟨_, rfl⟩⟩
-      · rename_i v hv
-        simp only [hv] at h
-        cases h
+    have := C02_spec_buildGo_raises w cf name root ff fsb ab _ e h
+    exact ⟨this.1, Or.inr this.2⟩
   | valid r =>
     simp only [hc] at h ⊢
     by_cases hn : r.buildName = name
     · simp only [hn, if_true] at h ⊢
-      split
-      · exact ⟨rfl, Or.inr ⟨_, rfl⟩⟩
-      · rename_i cds hcds
-        simp only [hcds] at h
-        generalize hrun : run root none _ = rr at h ⊢
-        obtain ⟨r0, s2, tr⟩ := rr
-        simp only at h ⊢
-        split
-        · exact ⟨rfl, Or.inr ⟨_, rfl⟩⟩
-        · rename_i v hv
-          simp only [hv] at h
-          cases h
+      have := C02_spec_buildGo_raises w cf name root ff fsb ab _ e h
+      exact ⟨this.1, Or.inr this.2⟩
     · simp [hn]
 
 /-- C14 (model of an injected fault): the setup of the call in progress fails with the OSError, before
